@@ -2,6 +2,10 @@ import WpModel.Drive.Loop
 import WpModel.Drive.Counters
 import WpModel.Drive.CounterScope
 import WpModel.Drive.Repaginate
+import WpModel.Drive.PageCounters
+import WpModel.Drive.TargetText
+import WpModel.Drive.CounterDescriptors
 
 def main : IO Unit := Wp.Drive.runDriver
-  [Wp.Drive.Counters.handle, Wp.Drive.CounterScope.handle, Wp.Drive.Repaginate.handle]
+  [Wp.Drive.Counters.handle, Wp.Drive.CounterScope.handle, Wp.Drive.Repaginate.handle,
+   Wp.Drive.PageCounters.handle, Wp.Drive.TargetText.handle, Wp.Drive.CounterDescriptors.handle]
